@@ -55,3 +55,42 @@ Example C17_select_source_ex :
   FnSliceIter.Select [1; 2; 3; 4; 5; 6] Z.even (gyield (take_consumer 2)) ([], 0) 7%nat = Ok ([2; 4], 2)
   /\ FnSliceIter.Select [1; 2; 3; 4; 5; 6] Z.even (gyield (take_consumer 0)) ([], 0) 7%nat = Ok ([2; 4; 6], 3).
 Proof. vm_compute. repeat split. Qed.
+
+(* Dedup(vs) = slices.Compact(vs).  [FnSlice.Dedup] is generated from the one-statement body; the
+   standard function is a function argument that gets the argument's elements and view and
+   answers the result's view and the new elements.  slices.Compact itself is NOT translated (its
+   s2 := s[k:] aliases s): [compact_impl] is a hand copy of the go1.23 loop, [g_compact] that model
+   as the external function.  What is tied to /repo is the wrapper: Dedup hands vs over and
+   returns what Compact returns, nothing else. *)
+Theorem C17_dedup_hands_over :
+  forall (T : Type) (vs : list T) (vs_v : view) (compact : list T -> view -> res (view * list T)),
+    FnSlice.Dedup vs vs_v compact = compact vs vs_v.
+Proof. exact (@dedup_hands_over). Qed.
+Print Assumptions C17_dedup_hands_over.
+
+Theorem C17_dedup_is_source :
+  forall (T : Type) (eqb : T -> T -> bool) (zero : T) (vs : list T) (v : SliceUtilModel.view),
+    FnSlice.Dedup vs (vw v) (g_compact eqb zero)
+    = embf (fun ws : SliceUtilModel.view * list T => (vw (fst ws), snd ws)) (dedup_view eqb zero vs v).
+Proof. exact (@dedup_is_source). Qed.
+Print Assumptions C17_dedup_is_source.
+
+(* what the doc comment says, for every equality test eqb (no law needed), on a view that is the
+   whole argument: the result is the PREFIX of the same array (same offset, same capacity) whose
+   elements are those that differ from their predecessor -- the first element of every run, in
+   order --, the slots behind it are zeroed, the array keeps its length, no panic. *)
+Theorem C17_dedup_source_spec :
+  forall (T : Type) (eqb : T -> T -> bool) (zero : T) (vs : list T) (v : SliceUtilModel.view),
+    SliceUtilModel.vlen v = zlen vs -> SliceUtilModel.vlen v <= SliceUtilModel.vcap v ->
+    FnSlice.Dedup vs (vw v) (g_compact eqb zero)
+    = Ok (mkView (SliceUtilModel.voff v) (zlen (dedup_spec eqb vs)) (SliceUtilModel.vcap v),
+          dedup_spec eqb vs ++ repeat zero (length vs - length (dedup_spec eqb vs))).
+Proof. exact (@dedup_source_spec). Qed.
+Print Assumptions C17_dedup_source_spec.
+
+Example C17_dedup_source_ex :
+  FnSlice.Dedup [1; 1; 2; 2; 2; 3; 1; 1] (mkView 4 8 10) (g_compact Z.eqb 0)
+    = Ok (mkView 4 4 10, [1; 2; 3; 1; 0; 0; 0; 0])
+  /\ dedup_spec Z.eqb [1; 1; 2; 2; 2; 3; 1; 1] = [1; 2; 3; 1]
+  /\ FnSlice.Dedup [5; 6] (mkView 0 2 2) (g_compact Z.eqb 0) = Ok (mkView 0 2 2, [5; 6]).
+Proof. vm_compute. repeat split. Qed.
